@@ -541,7 +541,7 @@ Proof.
   clear Esw Hmin E1 E2 E3 Hf1 Hg1 DF DG.
   apply (zres_st_ext s _ (pxor P' Q') _ Hpq). clear Hpq P Q f g.
   destruct (cget c zcode_symm [f'; g'] []) as [h|] eqn:Ec.
-  - destruct (O _ _ _ _ Ec) as [_ Ox]. simpl in Ox. destruct Ox as [Ox _].
+  - destruct (O _ _ _ _ Ec) as [_ Ox]. simpl in Ox.
     destruct (Ox eq_refl) as (P0 & Q0 & D0 & D0' & Dh).
     apply zres_st_here; auto.
     apply (zden_ext s h _ _ Dh). apply pxor_ext.
